@@ -29,7 +29,7 @@ def coverage():
 
 def seeded():
     out = ["| change | breaks | what it needs | confirmed in scratch worktree | caught by (quick tier) | first round (before strengthening) |", "|--------|--------|---------------|-------------------------------|------------------------|--------------------------------------|"]
-    for d in sorted(glob.glob(os.path.join(ROOT, "seeded", "C*-[a-d]"))):
+    for d in sorted(glob.glob(os.path.join(ROOT, "seeded", "C*-[a-z]"))):
         mp = os.path.join(d, "meta.json")
         if not os.path.exists(mp):
             continue
